@@ -51,6 +51,17 @@ def groups(n, seed):
                 {"prob": ps, "params": pk, "run": "C", "algkey": 2, "twin": "C10"},
                 {"prob": ps, "params": pk, "run": "D", "algkey": 2, "twin": "C10", "same_solver_as": "A"}]
         gs.append({"tag": "C10", "runs": runs})
+    # omitted start vectors mean the defaults, whatever the solver object was given before
+    for i in range(max(4, n // 10)):
+        ps = family_spec(i, rng)
+        if ps[0] in ("infeasible", "unbounded"):
+            ps = ("repo", ["tame", "hs71c"][i % 2])
+        pk = gen.random_params(rng, iteration_limit=15)
+        om = ["both", "x", "y"][i % 3]
+        gs.append({"tag": "C10.omitted", "runs": [
+            {"prob": ps, "params": pk, "run": "A", "algkey": 1, "twin": "none", "x0_shift": 0.5, "y0scale": 2.0},
+            {"prob": ps, "params": pk, "run": "B", "algkey": 2, "twin": "C10", "same_solver_as": "A", "omit_start": om},
+            {"prob": ps, "params": pk, "run": "C", "algkey": 2, "twin": "C10", "omit_start": om}]})
     # process-global state: the reference solve R runs BEFORE a polluting solve A (a failed derivative check, a single-precision
     # solve, a solve at DEBUG level that raises midway), its twin B after it -- all on fresh solvers
     from pygradflow.params import DerivCheck, Precision
